@@ -206,6 +206,14 @@ fn check_poly(sys: &Sys, poly: &Polytope, prefix: &str, with_subsets: bool, with
                 for i in 0..r.len() {
                     let others: Rows = r.iter().enumerate().filter(|(j, _)| *j != i).map(|(_, x)| x.clone()).collect();
                     if r[i].0.iter().all(|v| v.is_zero()) {
+                        // a row 0 <= b with b >= margin is implied by anything, even by no row at all
+                        if r[i].1 >= delta() {
+                            out.violate(
+                                Violation::new(format!("{prefix}remove_redundant_row_constraints kept the tautology 0 <= {}", r[i].1), rec("remove_redundant_row_constraints", Some(&r)))
+                                    .tag("call", "remove_redundant_row_constraints").tag("kind", "redundant_row_kept").tag("cause", "tautology"),
+                            );
+                            break;
+                        }
                         continue;
                     }
                     if let LpResult::Optimal(_, v) = maximize(n, &lp(&others), &r[i].0) {
@@ -443,6 +451,17 @@ pub fn run(tier: Tier) -> Report {
     for n in 1..=3 {
         gn.push(Sys { n, rows: vec![] });
     }
+    // necessary rows with biases of 2^53 and more (b + 1 == b in f64 there)
+    for big in [9007199254740992.0f64, 1e16, 2f64.powi(60)] {
+        gn.push(Sys { n: 1, rows: vec![(vec![1.0], big)] });
+        gn.push(Sys { n: 1, rows: vec![(vec![-1.0], -big)] });
+        gn.push(Sys { n: 1, rows: vec![(vec![-1.0], 0.0), (vec![1.0], big)] });
+        gn.push(Sys { n: 2, rows: vec![(vec![-1.0, 0.0], 0.0), (vec![1.0, 0.0], big), (vec![0.0, -1.0], 0.0), (vec![0.0, 1.0], 1.0)] });
+    }
+    // systems that consist of tautologies only
+    gn.push(Sys { n: 1, rows: vec![(vec![0.0], 5.0), (vec![0.0], 2.0), (vec![0.0], 0.0)] });
+    gn.push(Sys { n: 2, rows: vec![(vec![0.0, 0.0], 1.0)] });
+    gn.push(Sys { n: 2, rows: vec![(vec![0.0, 0.0], 1.0), (vec![0.0, 0.0], 3.0)] });
     // rows just above the "negligible" threshold (entries 2^-51 and 2^-52 next to f64::EPSILON = 2^-52): they are
     // ordinary constraints, scaled; and rows whose directions are 2^-27 rad apart (x <= 1 against x + 2^-27 y <= 1)
     let (t51, t52, a27) = (2f64.powi(-51), 2f64.powi(-52), 2f64.powi(-27));
